@@ -22,8 +22,15 @@ def playback_native(crate: K.KaniCrate, harness, timeout_s):
     except subprocess.TimeoutExpired:
         return None, "playback generation timed out"
     log = r.stdout
-    src = open(os.path.join(crate.dir, "src", "lib.rs")).read()
-    m = re.findall(r"fn (kani_concrete_playback_\w+)", src)
+    src = ""
+    for fn in sorted(os.listdir(os.path.join(crate.dir, "src"))):
+        if fn.endswith(".rs"):
+            src += open(os.path.join(crate.dir, "src", fn)).read()
+    # Kani writes one test per failed check AND one per satisfied cover: keep the former only
+    m = []
+    for tm in re.finditer(r"((?:\s*///[^\n]*\n)+)\s*#\[test\]\s*fn (kani_concrete_playback_\w+)", src):
+        if "Check for `cover`" not in tm.group(1):
+            m.append(tm.group(2))
     if not m:
         return None, log[-3000:]
     r2 = subprocess.run(["cargo", "kani", "playback", "-Z", "concrete-playback", "--", m[-1]],
@@ -41,7 +48,7 @@ def playback_native(crate: K.KaniCrate, harness, timeout_s):
 
 def run_kernel_property(pid, tier, crate: K.KaniCrate, harnesses, *, timeout_s, functions, assumptions, bounds,
                         describe=None, mem_gb=12, stub=False, key_of=None, kani_jobs=None, extra_cov=None,
-                        required_covers=None):
+                        required_covers=None, relevant=None):
     """harnesses: list of exact harness names.  describe: {harness: text}."""
     t0 = time.time()
     known = K.load_known_findings().get(pid, {})
@@ -66,7 +73,13 @@ def run_kernel_property(pid, tier, crate: K.KaniCrate, harnesses, *, timeout_s, 
                 rec["status"] = "VACUOUS"
             else:
                 discharged += 1
+        elif r.status == "FAILED" and relevant is not None and not [c for c in r.failed_checks if relevant(c)]:
+            # only assertions that belong to another property failed; this property's own assertions hold
+            discharged += 1
+            rec["status"] = "SUCCESSFUL (checks of other properties failed: %s)" % r.failed_checks[:2]
         elif r.status == "FAILED":
+            if relevant is not None:
+                r.failed_checks = [c for c in r.failed_checks if relevant(c)]
             rep, plog = playback_native(crate, h, timeout_s * 2)
             key = key_of(h, r) if key_of else "kani:" + h
             if rep is True:
@@ -89,7 +102,7 @@ def run_kernel_property(pid, tier, crate: K.KaniCrate, harnesses, *, timeout_s, 
         d = K.save_replay(pid, case, {"playback.log": plog, "harness.txt": h + "\n",
                                       "README": "The crate source with the generated #[test] is lib.rs; run `cargo kani playback -Z concrete-playback` in a crate "
                                                 "with a path dependency on /repo/lalrpop-util (see ./check %s --replay).\n" % pid})
-        shutil.copy(os.path.join(crate.dir, "src", "lib.rs"), os.path.join(d, "lib.rs"))
+        shutil.copytree(os.path.join(crate.dir, "src"), os.path.join(d, "src"), dirs_exist_ok=True)
         shutil.copy(os.path.join(crate.dir, "Cargo.toml"), os.path.join(d, "Cargo.toml"))
         print("VIOLATION property=%s replay=%s" % (pid, d))
         print("  " + text)
@@ -122,8 +135,11 @@ def run_kernel_property(pid, tier, crate: K.KaniCrate, harnesses, *, timeout_s, 
 def replay_kernel(pid, path):
     """Rebuild the stored crate (with the generated #[test]) against the current /repo and run it."""
     d = os.path.join(K.workdir(), "replay_crate")
-    os.makedirs(os.path.join(d, "src"), exist_ok=True)
-    shutil.copy(os.path.join(path, "lib.rs"), os.path.join(d, "src", "lib.rs"))
+    if os.path.isdir(os.path.join(path, "src")):
+        shutil.copytree(os.path.join(path, "src"), os.path.join(d, "src"), dirs_exist_ok=True)
+    else:
+        os.makedirs(os.path.join(d, "src"), exist_ok=True)
+        shutil.copy(os.path.join(path, "lib.rs"), os.path.join(d, "src", "lib.rs"))
     shutil.copy(os.path.join(path, "Cargo.toml"), os.path.join(d, "Cargo.toml"))
     shutil.copy(os.path.join(K.REPO, "Cargo.lock"), os.path.join(d, "Cargo.lock"))
     r = subprocess.run(["cargo", "kani", "playback", "-Z", "concrete-playback"], cwd=d, env=K.env_with(),
